@@ -342,12 +342,32 @@ type VerifC05Gate struct {
 	Strict bool                  // emulate a back-end whose Delete reports a missing key (memcached)
 	Watch  func(key string) bool // nil: every key
 	Norm   func(key string) string
+	seenMu sync.Mutex
+	seen   map[string]bool // every full key any caller used (gated or not)
+}
+
+// SeenKeys lists every full key that reached the underlying store so far (as the back-end sees them)
+func (g *VerifC05Gate) SeenKeys() []string {
+	g.seenMu.Lock()
+	defer g.seenMu.Unlock()
+	var r []string
+	for k := range g.seen {
+		r = append(r, k)
+	}
+	sort.Strings(r)
+	return r
 }
 
 var _ store.StoreInterface = (*VerifC05Gate)(nil)
 
 func (g *VerifC05Gate) gate(op string, key any) *vc05Thread {
 	k, _ := key.(string)
+	g.seenMu.Lock()
+	if g.seen == nil {
+		g.seen = map[string]bool{}
+	}
+	g.seen[k] = true
+	g.seenMu.Unlock()
 	if g.Watch != nil && !g.Watch(k) {
 		return nil
 	}
@@ -847,6 +867,13 @@ func (w *VerifC05Writer) Count(scn *VerifC05Scn, n int, truncated bool) {
 	w.ops.Write(b)
 	w.ops.WriteByte('\n')
 	w.impl.WriteString(fmt.Sprintf("count scenario=%s threads=%d schedules=%d truncated=%v\n", scn.Name, len(scn.Threads), n, truncated))
+}
+
+// Setup exposes the scenario's fresh back-end + thread functions outside the scheduler (for scripted, sequential probes)
+func (scn *VerifC05Scn) Build(level VerifC05Level) (*VerifC05Backend, []func() string, error) {
+	b := VerifC05MemBackend(nil, scn.Strict, nil)
+	fns, err := level(b, scn)
+	return b, fns, err
 }
 
 // Raw writes an arbitrary op with its implementation line
